@@ -382,6 +382,17 @@ func Run(c *vk.Ctx) {
 			c.Finish()
 			return
 		}
+		var ec EmbedCase
+		c.LoadReplay(&ec)
+		if ec.Embedded {
+			f := runEmbedded(ec)
+			fmt.Printf("replay embedded %+v\nresult: %s\n", ec, f)
+			if f != "" {
+				c.Violate("replay", f, ec)
+			}
+			c.Finish()
+			return
+		}
 		var ni NilInstCase
 		c.LoadReplay(&ni)
 		if ni.NilInstance {
